@@ -49,6 +49,7 @@ type Srv struct {
 	mu       sync.Mutex
 	sessions []*Session
 	barrier  uint64
+	net      *netState // non-nil: RPCs go through real gRPC over bufconn (net.go)
 }
 
 // NewSrv creates a server with the three standard network instances.
@@ -97,6 +98,8 @@ type Session struct {
 	handlerGID atomic.Int64
 	read       int // responses already consumed by the harness
 	recvs      atomic.Int64
+
+	n *netSess // non-nil: real transport (net.go)
 }
 
 type modStream struct {
@@ -162,6 +165,9 @@ func (m *modStream) Send(r *spb.ModifyResponse) error {
 
 // Open starts a new Modify RPC.
 func (s *Srv) Open() *Session {
+	if s.net != nil {
+		return s.openNet()
+	}
 	before := map[string]bool{}
 	for _, id := range s.S.VerifSessionIDs() {
 		before[id] = true
@@ -221,6 +227,9 @@ func (x *Session) Err() error {
 // deliver hands one item to the handler's Recv. It returns false when the
 // handler can no longer receive it (RPC ended), and a *Hang on watchdog expiry.
 func (x *Session) deliver(it recvItem) (bool, *Hang) {
+	if x.n != nil {
+		return x.netDeliver(it)
+	}
 	t := time.NewTimer(Watchdog)
 	defer t.Stop()
 	select {
@@ -493,6 +502,9 @@ func Watch(what string, f func()) *Hang {
 // Get runs the Get RPC to completion. failAt > 0 makes the client "go away"
 // when the failAt-th response is written.
 func (s *Srv) Get(req *spb.GetRequest, failAt int) (resps []*spb.GetResponse, err error, hang *Hang) {
+	if s.net != nil {
+		return s.getNet(req, failAt)
+	}
 	gs := &getStream{ctx: context.Background(), failAt: failAt}
 	hang = Watch("Get", func() { err = s.S.Get(req, gs) })
 	gs.mu.Lock()
@@ -507,6 +519,9 @@ func (s *Srv) GetAll() ([]*spb.GetResponse, error, *Hang) {
 
 // Flush runs the Flush RPC.
 func (s *Srv) Flush(req *spb.FlushRequest) (resp *spb.FlushResponse, err error, hang *Hang) {
+	if s.net != nil {
+		return s.flushNet(req)
+	}
 	hang = Watch("Flush", func() { resp, err = s.S.Flush(context.Background(), req) })
 	return
 }
